@@ -365,7 +365,7 @@ func (c *fctx) deferStmt(x *ast.DeferStmt) []S {
 		out := c.exprs(x.Call.Args)
 		sub := c.child(c.name, fl.Type)
 		body := sub.block(fl.Body.List)
-		if len(sub.defers) > 0 || containsKind(body, "Return", true) || containsKind(body, "DeferUnlock", true) {
+		if len(sub.defers) > 0 || containsKind(body, "Return", true) || containsKind(body, "DeferUnlock", true) || containsKind(body, "DeferRUnlock", true) {
 			return append(out, c.unknown(x.Pos(), "deferred function literal with return/defer inside"))
 		}
 		if len(body) > 0 {
@@ -374,16 +374,16 @@ func (c *fctx) deferStmt(x *ast.DeferStmt) []S {
 		return out
 	}
 	sts := c.call(x.Call)
-	if n := len(sts); n > 0 && sts[n-1].kind == "Unlock" {
+	if n := len(sts); n > 0 && (sts[n-1].kind == "Unlock" || sts[n-1].kind == "RUnlock") {
 		// defer recv.mu.Unlock(): kept as a statement, the semantics releases at return.  It must be
 		// registered before every other deferred body with an effect (it then runs after them).
 		if len(c.defers) > 0 {
 			return append(sts[:n-1], c.unknown(x.Pos(), "deferred unlock registered after other deferred calls"))
 		}
-		return append(sts[:n-1], S{kind: "DeferUnlock", a: sts[n-1].a})
+		return append(sts[:n-1], S{kind: "Defer" + sts[n-1].kind, a: sts[n-1].a})
 	}
 	for _, s := range sts {
-		if s.kind == "Lock" {
+		if s.kind == "Lock" || s.kind == "RLock" {
 			return []S{c.unknown(x.Pos(), "deferred lock")}
 		}
 	}
@@ -407,7 +407,7 @@ func q(s string) string { return "\"" + strings.ReplaceAll(s, "\"", "'") + "\"" 
 
 func leafText(s S) (string, bool) {
 	switch s.kind {
-	case "Lock", "Unlock", "DeferUnlock", "Call", "Unknown":
+	case "Lock", "Unlock", "DeferUnlock", "RLock", "RUnlock", "DeferRUnlock", "Call", "Unknown":
 		return s.kind + " " + q(s.a), true
 	case "Use":
 		return "Use " + q(s.a) + " " + s.b, true
@@ -447,7 +447,7 @@ func printStmts(b *strings.Builder, l []S, ind string) {
 		}
 		b.WriteString("\n" + ind + "  ")
 		switch s.kind {
-		case "Lock", "Unlock", "DeferUnlock", "Call", "Unknown":
+		case "Lock", "Unlock", "DeferUnlock", "RLock", "RUnlock", "DeferRUnlock", "Call", "Unknown":
 			b.WriteString(s.kind + " " + q(s.a))
 		case "Use":
 			b.WriteString("Use " + q(s.a) + " " + s.b)
